@@ -559,8 +559,9 @@ fn run_seq(history: &[Ev], stats: &mut Stats) -> Result<(), (Fail, usize)> {
     judge(&book, &model, 1, stats).map_err(|f| (f, 0))?;
     for (idx, ev) in history.iter().enumerate() {
         let event = build(ev);
-        let (cb, ca) = carried(&event);
-        model.apply(ev, &cb, &ca, stats);
+        // the map is fed the levels IN THE ORDER GIVEN to the constructor: a price named twice in one update is
+        // set / deleted in that order (the constructor sorts by price; it must not reorder equal prices)
+        model.apply(ev, &ev.bids, &ev.asks, stats);
         stats.events += 1;
         let route = route_of(idx, ev);
         if let Err(msg) = catch(|| apply_routed(&mut book, event, route, stats)) {
@@ -573,8 +574,7 @@ fn run_seq(history: &[Ev], stats: &mut Stats) -> Result<(), (Fail, usize)> {
         if side_by_side {
             let oev = &history[history.len() - 1 - idx];
             let event = build(oev);
-            let (cb, ca) = carried(&event);
-            other_model.apply(oev, &cb, &ca, stats);
+            other_model.apply(oev, &oev.bids, &oev.asks, stats);
             if let Err(msg) = catch(|| other.update(event)) {
                 return Err((
                     Fail { sig: "panic_in_order_book_update", detail: format!("second book: OrderBook::update panicked at event {idx}: {msg}") },
@@ -650,7 +650,7 @@ fn execute_seq(history: &[Ev], report: &mut Report, label: &str, shrunk_so_far: 
             Err((f2, _)) => f2.detail,
             Ok(()) => f.detail,
         };
-        let witness: Vec<Value> = small.iter().map(|e| ev_json(&as_carried(e))).collect();
+        let witness: Vec<Value> = small.iter().map(ev_json).collect();
         report.violation(f.sig, detail, Value::Array(witness));
     }
 }
@@ -992,8 +992,7 @@ fn run_manager_case(rt: &tokio::runtime::Runtime, case: &MgrCase, stats: &mut St
             Feed::Item { instr, ev } => {
                 let event = build(ev);
                 if let Some(i) = case.configured.iter().position(|k| k == instr) {
-                    let (cb, ca) = carried(&event);
-                    models[i].apply(ev, &cb, &ca, stats);
+                    models[i].apply(ev, &ev.bids, &ev.asks, stats);
                     let st = RefState::of_model(&models[i]);
                     let k = refs[i].states.len();
                     if st.sequence < refs[i].states[k - 1].sequence {
